@@ -61,6 +61,7 @@ def check_c01(prog, rep, tier, cfg):
     c01b(prog, rep)
     c01c(prog, rep)
     check_c01d(prog, rep)
+    check_c01f(prog, rep)
 
 
 def c01a(prog, rep):
@@ -389,6 +390,8 @@ def check_c07(prog, rep, tier, cfg):
             consts = [v for a, v in enum_variants_mentioned(fl) if a.endswith("LogicalLineType")]
             ok &= consts == ["AsmInstruction"]
         rep.check(ok, R, "wrapper-skips-asm-lines", "format_line searches a wrapping for AsmInstruction lines", instance={"guard": "line_type != AsmInstruction"})
+    # C07.g every logical line finished while parsing asm instructions carries the AsmInstruction type
+    asm_lines_typed(prog, rep, "C07.g")
     # C07.f toggler constants
     R = "C07.f"
     pt = prog.body("pasfmt_core::rules::formatting_toggle::parse_toggle")
@@ -484,6 +487,214 @@ def check_c01d(prog, rep):
     """C01.d — the text-rebuilding normalisers leave out input pieces only under guards that imply the piece is blank."""
     import strings
     strings.skip_discipline(prog, rep, "C01.d")
+    # C01.e — whitespace is regenerated from counters, so whatever the lexer counts as leading whitespace must be blank
+    import lexer_rules
+    lexer_rules.blank_definition(prog, rep, "C01.e")
+
+
+def asm_lines_typed(prog, rep, R):
+    """Inside parse_asm_instructions, the last event before every finish_logical_line (on every path from the entry or from the previous
+    finish) is set_logical_line_type(AsmInstruction): otherwise a line of instructions is left untyped, is not marked by the asm ignorer
+    and gets re-spaced and re-wrapped."""
+    P = "pasfmt_core::defaults::parser::InternalDelphiLogicalLineParser::"
+    b = prog.body(P + "parse_asm_instructions")
+    if not rep.check(b is not None, R, "anchor:parse_asm_instructions", "parse_asm_instructions not found"):
+        return
+
+    def events_of_body(body, depth=0):
+        """per block: list of 'set' / 'finish' / 'other-type' events caused by its call"""
+        ev = {}
+        for c in body.calls():
+            tgt = c.target or ""
+            if tgt == P + "set_logical_line_type":
+                vs = [a.get("enum_variant") for a in c.args if a["k"] == "const"]
+                if not vs:
+                    o = Origins(body).of_operand(c.args[1])
+                    vs = [(x[3] if x[0] == "agg" else (x[2] if x[0] == "const" else None)) for x in o]
+                ev[c.bb] = ["set"] if vs == ["AsmInstruction"] or (vs and all(str(v).endswith("AsmInstruction") for v in vs)) else ["other-type"]
+            elif tgt == P + "finish_logical_line":
+                ev[c.bb] = ["finish"]
+            else:
+                # a call of one of this function's own closures: splice the closure's event sequence (straight-line closures only)
+                for cal in prog.callees_of_site(c):
+                    cb = prog.body(cal)
+                    if cb is not None and cb.kind == "Closure" and cb.npath.startswith(b.npath + "::") and depth < 2:
+                        sub = events_of_body(cb, depth + 1)
+                        if sub:
+                            order = sorted(sub, key=lambda x: len(cb.dom.get(x, ())))
+                            linear = all(cb.dominates(order[i], order[i + 1]) and cb.postdominates(order[i + 1], order[i]) for i in range(len(order) - 1))
+                            seq = [e for bb2 in order for e in sub[bb2]]
+                            ev[c.bb] = seq if linear else ["finish"]     # unknown order: treat as a finish without a preceding set
+        return ev
+    ev = events_of_body(b)
+    fins = [bb for bb, e in ev.items() if "finish" in e]
+    if not rep.check(len(fins) >= 1, R, "finish-sites", "parse_asm_instructions never finishes a logical line"):
+        return
+    # blocks after which the current line is typed / untyped
+    typed_after = {bb for bb, e in ev.items() if e and e[-1] == "set"}
+    # a finish event is fine if, within its own block's sequence, the event right before it is a set
+    bad = []
+    for bb in fins:
+        seq = ev[bb]
+        for i, e in enumerate(seq):
+            if e != "finish":
+                continue
+            if i > 0:
+                if seq[i - 1] != "set":
+                    bad.append((bb, "finished right after %s" % seq[i - 1]))
+                continue
+            # first event of the block: every way into the block must come from a block that leaves the line typed
+            starts = [("entry", 0)] + [("the line finished in bb%d" % f, s2) for f in fins for s2 in b.succ[f] if ev[f][-1] != "set"]
+            for why, st in starts:
+                if st == bb and why == "entry" and bb != 0:
+                    continue
+                if st in typed_after and st != bb:
+                    continue
+                if st == bb or b.can_reach_avoiding(st, {bb}, typed_after - {bb}):
+                    bad.append((bb, "reachable from %s without set_logical_line_type(AsmInstruction)" % why))
+                    break
+    rep.check(not bad, R, "every-finished-asm-line-is-typed", "parse_asm_instructions can finish a logical line that was not given the AsmInstruction type: %s" % bad[:3],
+              where="%s:%d" % (b.file, b.line), instance={"finish_sites": len(fins), "events": {str(k): v for k, v in sorted(ev.items())}})
+
+
+NORMALISER_BUILDERS = ["pasfmt_core::rules::comment_contents::format_line_comment", "pasfmt_core::rules::comment_contents::format_compiler_directive"]
+
+
+def check_c01f(prog, rep, R="C01.f"):
+    """C01.f — the loop-free text re-assemblers append consecutive sub-slices of the token's own text that cover it completely
+    (symbolic slice algebra, rules/slices.py); the only other material is blank characters, an ASCII case mapping of a piece, a whole
+    copy, and truncation to trim_ascii_end."""
+    import slices
+
+    def is_content(t):
+        return t[0] == "call" and t[1].endswith("::get_content") and t[2] == (("arg", 1),)
+
+    for name in NORMALISER_BUILDERS:
+        b = prog.body(name)
+        if not rep.check(b is not None, R, "anchor:" + short(name), "%s not found" % short(name)):
+            continue
+        ev = slices.SliceEval(prog, b, is_content)
+        mark = len(slices.VAR_READS)
+        makers = [c for c in b.calls() if c.callee in ("alloc::string::String::with_capacity", "alloc::string::String::new")]
+        if not rep.check(len(makers) == 1, R, "one-builder:" + short(name), "%s builds %d strings (one reviewed)" % (short(name), len(makers))):
+            continue
+        pcs = slices.pieces_of(prog, b, makers[0], ev)
+        ok, desc, problems = slices.check_partition(b, pcs, ev)
+        unstable = slices.unstable_var_reads(b, mark)
+        rep.check(ok and not unstable and len([p for p in pcs if p[1] != "blank"]) >= 2, R, "partition:" + short(name),
+                  "the text built in %s is not a partition of the token's text: %s%s" % (short(name), "; ".join(problems), ("; variables re-assigned after being read: %s" % unstable) if unstable else ""),
+                  where="%s:%d" % (b.file, pcs[0][0].line if pcs else 0), instance={"builder": short(name), "pieces": desc})
+        # every other operation on a String in this body
+        seen_ops = set()
+        for c in b.calls():
+            if c.bb == makers[0].bb:
+                continue
+            for ai, a in enumerate(c.args):
+                if a["k"] in ("copy", "move") and not a["place"]["p"] and b.locals[a["place"]["l"]]["ty"] in ("&mut alloc::string::String", "&mut core::option::Option<alloc::string::String>", "alloc::string::String"):
+                    nm = (c.callee or "?").split("::")[-1]
+                    seen_ops.add(nm)
+                    if nm in ("push_str", "push", "extend", "set_content", "Some", "drop", "drop_in_place"):
+                        continue
+                    if nm == "truncate":
+                        tt = slices.t_operand(b, c.args[1], 0, (), c.bb)
+                        recv = slices.t_operand(b, c.args[0], 0, (), c.bb)
+                        good = tt[0] == "call" and tt[1] == "core::str::len" and tt[2][0][0] == "call" and tt[2][0][1] == "core::str::trim_ascii_end"
+                        if good:
+                            inner = tt[2][0][2][0]
+                            while inner[0] == "call" and inner[1].split("::")[-1] in ("deref", "as_str", "deref_mut"):
+                                inner = inner[2][0]
+                            good = inner == recv
+                        rep.check(good, R, "truncate:" + short(name), "String::truncate in %s is not `s.truncate(s.trim_ascii_end().len())` (got %s)" % (short(name), slices.show(tt)), where=c.where(),
+                                  instance={"truncate": "to trim_ascii_end of the same string"})
+                        continue
+                    if nm == "get_or_insert_with":
+                        ct = slices.t_operand(b, c.args[1], 0, (), c.bb)
+                        good = ct[0] == "agg" and ct[1].startswith("closure:") and all(is_content(x) for x in ct[2]) and len(ct[2]) == 1
+                        if good:
+                            cb = prog.body(ct[1][len("closure:"):])
+                            calls = [x.callee for x in cb.calls()] if cb is not None else []
+                            good = calls in (["alloc::string::ToString::to_string"], ["alloc::borrow::ToOwned::to_owned"], ["core::convert::From::from"], ["alloc::string::String::from"])
+                        rep.check(good, R, "whole-copy:" + short(name), "the fallback value in %s is not a whole copy of the token's text" % short(name), where=c.where(), instance={"fallback": "content.to_string()"})
+                        continue
+                    rep.fail(R, "string-op:%s:%s" % (short(name), nm), "unreviewed operation %s on a String in %s" % (c.callee, short(name)), where=c.where())
+        rep.ok(R, {"builder": short(name), "string_ops": sorted(seen_ops)})
+        # what reaches set_content is one of these strings
+        for c in b.calls_to("pasfmt_core::lang::Token::set_content"):
+            o = Origins(b).of_operand(c.args[1])
+            src = set()
+            for x in o:
+                if x[0] == "call" and x[1] == makers[0].bb:
+                    src.add("built")
+                elif x[0] == "agg" and x[3].endswith("Option::Some"):
+                    oo = Origins(b).of_operand(b.blocks[x[1]]["stmts"][x[2]]["rv"]["ops"][0]) if x[2] != "term" else set()
+                    src |= {"built" if (y[0] == "call" and y[1] == makers[0].bb) else str(y) for y in oo}
+                elif x[0] == "agg" and x[3].endswith("Option::None"):
+                    src.add("none(filled by the whole-copy fallback)")
+                elif x[0] == "call" and x[2].endswith("get_or_insert_with"):
+                    src.add("none(filled by the whole-copy fallback)")
+                else:
+                    src.add(str(x))
+            rep.check(src <= {"built", "none(filled by the whole-copy fallback)"} and "built" in src, R, "set_content-source:" + short(name), "set_content in %s receives %s" % (short(name), sorted(src)), where=c.where(),
+                      instance={"builder": short(name), "set_content_from": sorted(src)})
+
+
+def documented_normalisations(prog, rep, R):
+    """C02.h — token text changes only through the documented normalisations, each applied to its own token kind:
+    who calls set_content, under which token-type facts, and what each caller hands over."""
+    from progress import dominating_variant_facts
+    callers = {c.body.npath for c in prog.who_calls(SET_CONTENT)}
+    rep.check(callers == SET_CONTENT_CALLERS, R, "who-calls:set_content", "token text is replaced outside the reviewed normalisers: unexpected %s, missing %s"
+              % (sorted(short(x) for x in callers - SET_CONTENT_CALLERS), sorted(short(x) for x in SET_CONTENT_CALLERS - callers)), instance={"callers": sorted(short(x) for x in callers)})
+    # keywords: lower-casing of the token's own text, on Keyword tokens only
+    kw = [b for b in prog.bodies.values() if b.npath.endswith("LowercaseKeywords as pasfmt_core::traits::LogicalLineFileFormatter>::format")]
+    if rep.check(len(kw) == 1, R, "anchor:LowercaseKeywords::format", "LowercaseKeywords::format not found"):
+        b = kw[0]
+        for c in b.calls_to(SET_CONTENT):
+            val = canon(b, c.args[1])
+            fx = [f for f in dominating_variant_facts(prog, b, c.bb) if "get_token_type(" in f[0]]
+            only_kw = any(f[1] == "is" and f[2] and f[2][0] == "Keyword" for f in fx)
+            same_tok = False
+            if val.startswith("to_ascii_lowercase(get_content("):
+                from panic import source_place, place_eq
+                og = Origins(b)
+                lows = [x for x in og.of_operand(c.args[1]) if x[0] == "call" and x[2].endswith("to_ascii_lowercase")]
+                for lw in lows:
+                    lsite = [s for s in b.calls() if s.bb == lw[1]][0]
+                    gets = [x for x in og.of_operand(lsite.args[0]) if x[0] == "call" and x[2].endswith("get_content")]
+                    for g in gets:
+                        gsite = [s for s in b.calls() if s.bb == g[1]][0]
+                        o1, o2 = og.of_operand(gsite.args[0]), og.of_operand(c.args[0])
+                        same_tok = o1 == o2 and len(o1) == 1 and all(x[0] == "call" and x[2].endswith("::next") for x in o1)
+            rep.check(only_kw and same_tok, R, "keyword-lowercase", "LowercaseKeywords replaces text with %s under %s (expected to_ascii_lowercase of the same token's text, on Keyword tokens)" % (val, fx), where=c.where(),
+                      instance={"value": "to_ascii_lowercase(own text)", "token_types": "Keyword"})
+    # comments / directives: each helper is reached only for its own token kinds
+    cf = [b for b in prog.bodies.values() if b.npath.endswith("CommentFormatter as pasfmt_core::traits::LogicalLineFileFormatter>::format")]
+    if rep.check(len(cf) == 1, R, "anchor:CommentFormatter::format", "CommentFormatter::format not found"):
+        b = cf[0]
+        want = {"format_line_comment": ({"Comment"}, {"InlineLine", "IndividualLine"}), "format_compiler_directive": ({"CompilerDirective", "ConditionalDirective"}, None)}
+        for helper, (outer, inner) in want.items():
+            sites = [c for c in b.calls() if (c.callee or "").endswith("comment_contents::" + helper)]
+            good = len(sites) == 1
+            seen = None
+            if good:
+                fx = dominating_variant_facts(prog, b, sites[0].bb)
+                o = set()
+                i = set()
+                for f in fx:
+                    if f[1] in ("is", "in") and "get_token_type(" in f[0]:
+                        if "@Comment" in f[0]:
+                            i |= set(f[2])
+                        else:
+                            o |= set(f[2])
+                seen = (sorted(o), sorted(i))
+                good = o == outer and (inner is None or i == inner)
+            rep.check(good, R, "dispatch:" + helper, "%s is applied to tokens of kinds %s (expected %s%s)" % (helper, seen, sorted(outer), "/" + str(sorted(inner)) if inner else ""),
+                      instance={"helper": helper, "kinds": seen})
+        others = {(c.callee or "").split("::")[-1] for c in b.calls() if "comment_contents::" in (c.callee or "")} - set(want)
+        rep.check(not others, R, "dispatch:closed", "CommentFormatter::format calls further text helpers: %s" % sorted(others))
+    check_c01f(prog, rep, R)
+    import strings
+    strings.skip_discipline(prog, rep, R)
 
 
 PROPERTIES = {
